@@ -406,6 +406,21 @@ class _rewrite_captured_vars(ast.NodeTransformer):
             or hasattr(rewritten_call.func.value, "_fields")
         ):
             rewritten_call.func = old_func
+            if isinstance(old_func, ast.Attribute):
+                # A method of a captured value (`name.upper()`): the value is frozen like any
+                # other, only modules and classes keep their name.
+                receiver = self.visit(copy.deepcopy(old_func.value))
+                if isinstance(receiver, ast.Constant) and type(receiver.value) in (
+                    str,
+                    int,
+                    float,
+                    bool,
+                    complex,
+                    bytes,
+                ):
+                    rewritten_call.func = ast.Attribute(
+                        value=receiver, attr=old_func.attr, ctx=ast.Load()
+                    )
 
         return rewritten_call
 
